@@ -288,4 +288,1003 @@ Proof.
                        | _ => st end)) as (a1 & a2 & a3 & a4 & a5).
   rewrite a1, a2, a3, a4, a5. destruct (tv_top st); simpl; spl; auto; destruct (tvals st); simpl; rewrite ?skipn_nil; reflexivity.
 Qed.
+
+(* ---------- UserFunction.evaluate: the call invariant ---------- *)
+Definition drop_tv (k : nat) (s : state) : state := set_tvals s (skipn k (tvals s)).
+
+Definition sname (o : obj) : list Z := match o with OSaveS n _ | OSaveN n _ => [n] | _ => [] end.
+Definition snames (k : nat) (s : state) : list Z := flat_map sname (firstn k (tvals s)).
+
+(* the saved value of scalar n is (a relocated copy of) what n held in st0 *)
+Definition orig (st0 s : state) (n : Z) (v : sval) : Prop :=
+  match lookup n (scal st0) with
+  | Some (SStr p0) => exists p, v = SStr p /\ RP c st0 s p0 p
+  | Some (SNum z0) => v = SNum z0
+  | None => zero_sval v
+  end.
+
+Definition save_ok (st0 s : state) (o : obj) : Prop :=
+  match o with
+  | OSaveS n p => orig st0 s n (SStr p)
+  | OSaveN n z => orig st0 s n (SNum z)
+  | _ => True
+  end.
+
+Record CI (st0 s : state) (k : nat) : Prop := mkCI {
+  ci_good : Good c s;
+  ci_jt : Jt s;
+  ci_len : (k <= length (tvals s))%nat;
+  ci_rel : RelX c (fun n => In n (snames k s)) st0 (drop_tv k s);
+  ci_nodup : NoDup (snames k s);
+  ci_saves : Forall (save_ok st0 s) (firstn k (tvals s))
+}.
+
+Lemma Forall2_skipn {A B} (R : A -> B -> Prop) k l l' : Forall2 R l l' -> Forall2 R (skipn k l) (skipn k l').
+Proof. intros H. revert k. induction H; intros [|k]; simpl; auto. Qed.
+
+Lemma Forall2_firstn {A B} (R : A -> B -> Prop) k l l' : Forall2 R l l' -> Forall2 R (firstn k l) (firstn k l').
+Proof. intros H. revert k. induction H; intros [|k]; simpl; auto. Qed.
+
+Lemma Forall2_length {A B} (R : A -> B -> Prop) l l' : Forall2 R l l' -> length l = length l'.
+Proof. induction 1; simpl; auto. Qed.
+
+Lemma same_mem_drop_tv k s : same_mem s (drop_tv k s).
+Proof. unfold drop_tv. apply same_mem_set_tvals. Qed.
+
+Lemma Rel_drop_tv X k s s' : RelX c X s s' -> RelX c X (drop_tv k s) (drop_tv k s').
+Proof.
+  intros H. apply (RelX_reshape c X s s' _ _ H (same_mem_drop_tv _ _) (same_mem_drop_tv _ _) eq_refl eq_refl); simpl.
+  - exact (r_stack _ _ _ _ H).
+  - apply Forall2_skipn, (r_tvals _ _ _ _ H).
+Qed.
+
+Lemma sname_RO s s' o o' : RO c s s' o o' -> sname o' = sname o.
+Proof. destruct o, o'; simpl; intros H; try discriminate; try (inversion H; reflexivity); auto. destruct H; subst; reflexivity. Qed.
+
+Lemma snames_RO k s s' : Forall2 (RO c s s') (tvals s) (tvals s') -> snames k s' = snames k s.
+Proof.
+  intros H. unfold snames. apply (Forall2_firstn _ k) in H. induction H; simpl; [reflexivity|].
+  rewrite IHForall2, (sname_RO _ _ _ _ H). reflexivity.
+Qed.
+
+Lemma orig_step st0 s s' n v v' :
+  orig st0 s n v ->
+  match v, v' with SStr p, SStr p' => RP c s s' p p' | SNum z, SNum z' => z = z' | _, _ => False end ->
+  orig st0 s' n v'.
+Proof.
+  unfold orig. destruct (lookup n (scal st0)) as [[p0|z0]|].
+  - intros (p & -> & H1). destruct v' as [p'|]; [|contradiction]. intros H2. exists p'. split; [reflexivity|]. eapply RP_trans; eassumption.
+  - intros ->. destruct v'; [contradiction|]. intros ->. reflexivity.
+  - destruct v as [p|z], v' as [p'|z']; simpl; try contradiction.
+    + intros H (H1 & _). congruence.
+    + intros -> <-. reflexivity.
+Qed.
+
+(* a step of the computation that does not touch this call's saved scalars other than through Y *)
+Lemma CI_step st0 s s' k (Y : Z -> Prop) :
+  CI st0 s k -> Good c s' -> Jt s' -> RelX c Y s s' -> (forall n, Y n -> In n (snames k s)) -> CI st0 s' k.
+Proof.
+  intros [G J L R N Sv] G' J' HR HY.
+  pose proof (r_tvals _ _ _ _ HR) as Ht. pose proof (snames_RO k s s' Ht) as Hn.
+  constructor; auto.
+  - rewrite <- (Forall2_length _ _ _ Ht). exact L.
+  - rewrite Hn. eapply RelX_trans; [exact R|]. apply Rel_drop_tv. eapply RelX_weaken; [|exact HR]. exact HY.
+  - rewrite Hn. exact N.
+  - apply (Forall2_firstn _ k) in Ht. clear - Sv Ht. induction Ht; [constructor|].
+    inversion Sv; subst. constructor; [|auto].
+    destruct x, y; simpl in *; try discriminate; try (inversion H; fail); auto.
+    + destruct H as [<- H]. eapply orig_step; [eassumption|]. exact H.
+    + inversion H; subst. eapply orig_step; [eassumption|]. reflexivity.
+Qed.
+
+Lemma orig_states st0 s s' n v : strs s' = strs s -> tmp s' = tmp s -> orig st0 s n v -> orig st0 s' n v.
+Proof.
+  intros A B. unfold orig. destruct (lookup n (scal st0)) as [[p0|z0]|]; auto.
+  intros (p & E & H). exists p. split; [exact E|]. eapply RP_states; [reflexivity|reflexivity|exact A|exact B|exact H].
+Qed.
+
+Lemma save_ok_states st0 s s' o : strs s' = strs s -> tmp s' = tmp s -> save_ok st0 s o -> save_ok st0 s' o.
+Proof. intros A B. destruct o; simpl; auto; apply orig_states; assumption. Qed.
+
+Lemma CI_push_arg st0 s k o : CI st0 s k -> obj_ok c s o -> sname o = [] -> CI st0 (tv_push s o) (S k).
+Proof.
+  intros [G J L R N Sv] Ho Hs.
+  assert (En : snames (S k) (tv_push s o) = snames k s) by (unfold snames; simpl; rewrite Hs; reflexivity).
+  constructor.
+  - apply tv_push_good; assumption.
+  - eapply Jt_containers; [|exact J]. unfold tv_push. apply same_mem_set_tvals.
+  - simpl. lia.
+  - rewrite En. exact R.
+  - rewrite En. exact N.
+  - simpl. constructor.
+    + destruct o; simpl in *; auto; discriminate.
+    + eapply Forall_impl; [|exact Sv]. intros a. apply save_ok_states; reflexivity.
+Qed.
+
+Lemma CI_push_save st0 s k e n :
+  CI st0 s k -> obj_ok c s e -> sname e = [n] -> ~ In n (snames k s) -> save_ok st0 s e -> CI st0 (tv_push s e) (S k).
+Proof.
+  intros [G J L R N Sv] Ho Hs Hn Hsv.
+  assert (En : snames (S k) (tv_push s e) = n :: snames k s) by (unfold snames; simpl; rewrite Hs; reflexivity).
+  constructor.
+  - apply tv_push_good; assumption.
+  - eapply Jt_containers; [|exact J]. unfold tv_push. apply same_mem_set_tvals.
+  - simpl. lia.
+  - rewrite En. eapply RelX_weaken; [|exact R]. intros m Hm. right; exact Hm.
+  - rewrite En. constructor; assumption.
+  - simpl. constructor.
+    + eapply save_ok_states; [| |exact Hsv]; reflexivity.
+    + eapply Forall_impl; [|exact Sv]. intros a. apply save_ok_states; reflexivity.
+Qed.
+
+(* taking a scalar out of the exempt set when its value is known to be the original one *)
+Lemma RelX_unexempt (X : Z -> Prop) st0 s n :
+  RelX c X st0 s ->
+  (match lookup n (scal st0) with
+   | Some (SStr p0) => exists p, lookup n (scal s) = Some (SStr p) /\ RP c st0 s p0 p
+   | Some (SNum z0) => lookup n (scal s) = Some (SNum z0)
+   | None => lookup n (scal s) = None \/ exists v, lookup n (scal s) = Some v /\ zero_sval v
+   end) ->
+  RelX c (fun m => X m /\ m <> n) st0 s.
+Proof.
+  intros H Hn. constructor.
+  - intros m p HX Hl. destruct (Z.eq_dec m n) as [->|Hne].
+    + rewrite Hl in Hn. exact Hn.
+    + apply (r_scal _ _ _ _ H); [|exact Hl]. intros Hx. apply HX. auto.
+  - intros m z HX Hl. destruct (Z.eq_dec m n) as [->|Hne].
+    + rewrite Hl in Hn. exact Hn.
+    + apply (r_num _ _ _ _ H); [|exact Hl]. intros Hx. apply HX. auto.
+  - intros m HX Hl. destruct (Z.eq_dec m n) as [->|Hne].
+    + rewrite Hl in Hn. exact Hn.
+    + apply (r_new _ _ _ _ H); [|exact Hl]. intros Hx. apply HX. auto.
+  - exact (r_arrs _ _ _ _ H).
+  - exact (r_newarr _ _ _ _ H).
+  - exact (r_stack _ _ _ _ H).
+  - exact (r_tvals _ _ _ _ H).
+  - exact (r_misc _ _ _ _ H).
+Qed.
+
+Lemma RelX_same_mem_r X st0 s s' :
+  RelX c X st0 s -> same_mem s s' -> stack s' = stack s -> tvals s' = tvals s -> fns s' = fns s -> RelX c X st0 s'.
+Proof.
+  intros H Hm Hs Ht Hf.
+  apply (RelX_reshape c X st0 s st0 s' H (same_mem_refl _) Hm eq_refl Hf).
+  - rewrite Hs. exact (r_stack _ _ _ _ H).
+  - rewrite Ht. exact (r_tvals _ _ _ _ H).
+Qed.
+
+(* changing an exempt scalar *)
+Lemma RelX_scal_exempt (X : Z -> Prop) st0 D D' n :
+  RelX c X st0 D -> X n ->
+  strs D' = strs D -> tmp D' = tmp D -> arrs D' = arrs D -> stack D' = stack D -> tvals D' = tvals D ->
+  fns D' = fns D -> totmem D' = totmem D -> stksz D' = stksz D ->
+  (forall m, m <> n -> lookup m (scal D') = lookup m (scal D)) ->
+  RelX c X st0 D'.
+Proof.
+  intros H Hn a1 a2 a3 a4 a5 a6 a7 a8 Hl.
+  assert (HP : forall p p', RP c st0 D p p' -> RP c st0 D' p p') by (intros; eapply RP_states; eauto).
+  assert (HO : forall o o', RO c st0 D o o' -> RO c st0 D' o o') by (intros; eapply RO_states; eauto).
+  assert (Hne : forall m, ~ X m -> m <> n) by (intros m Hm ->; contradiction).
+  constructor.
+  - intros m p HX Hlk. rewrite (Hl m (Hne m HX)). destruct (r_scal _ _ _ _ H m p HX Hlk) as (p' & A & B). eauto.
+  - intros m z HX Hlk. rewrite (Hl m (Hne m HX)). apply (r_num _ _ _ _ H); assumption.
+  - intros m HX Hlk. rewrite (Hl m (Hne m HX)). apply (r_new _ _ _ _ H); assumption.
+  - rewrite a3. intros m d els Hlk. destruct (r_arrs _ _ _ _ H m d els Hlk) as (els' & A & B). exists els'. split; [exact A|].
+    eapply Forall2_impl; [|exact B]. exact HP.
+  - rewrite a3. exact (r_newarr _ _ _ _ H).
+  - rewrite a4. eapply Forall2_impl; [|exact (r_stack _ _ _ _ H)]. intros x y Hxy. eapply Forall2_impl; [|exact Hxy]. exact HO.
+  - rewrite a5. eapply Forall2_impl; [|exact (r_tvals _ _ _ _ H)]. exact HO.
+  - rewrite a6, a7, a8. exact (r_misc _ _ _ _ H).
+Qed.
+
+(* finally: restore the saved values and drop this call's k entries *)
+Lemma unwind_CI st0 : forall k s, CI st0 s k -> Good c (unwind k s) /\ Rel c st0 (unwind k s).
+Proof.
+  induction k as [|k IH]; intros s [G J L R N Sv].
+  - simpl. split; [exact G|].
+    assert (H : RelX c (fun _ => False) st0 (drop_tv 0 s)) by (eapply RelX_weaken; [|exact R]; intros n []).
+    eapply RelX_same_mem_r; [exact H| | | |]; try reflexivity. apply same_mem_sym, same_mem_drop_tv.
+  - destruct (tvals s) as [|o T] eqn:ET; [simpl in L; lia|].
+    assert (Ho : obj_ok c s o) by (apply (g_tvals _ _ G); rewrite ET; left; reflexivity).
+    assert (Etop : tv_top s = o) by (unfold tv_top; rewrite ET; reflexivity).
+    assert (Esn : snames (S k) s = sname o ++ flat_map sname (firstn k T)) by (unfold snames; rewrite ET; reflexivity).
+    simpl in Sv. inversion_clear Sv as [|? ? So ST].
+    assert (HL2 : (k <= length T)%nat) by (simpl in L; lia).
+    rewrite Esn in R, N.
+    cbn [unwind]. rewrite Etop. apply IH.
+    (* a general recipe: the state s2 after restoring (if o is a saved value) and popping *)
+    assert (Hgen : forall s2 (X2 : Z -> Prop),
+               Good c s2 -> tvals s2 = T -> strs s2 = strs s -> tmp s2 = tmp s -> cur s2 = cur s ->
+               RelX c (fun m => In m (flat_map sname (firstn k T))) st0 (drop_tv k s2) -> NoDup (flat_map sname (firstn k T)) ->
+               CI st0 s2 k).
+    { intros s2 _ G2 Ht2 Hs2 Htm2 Hc2 R2 N2.
+      assert (Esn2 : snames k s2 = flat_map sname (firstn k T)) by (unfold snames; rewrite Ht2; reflexivity).
+      constructor; rewrite ?Esn2, ?Ht2; auto.
+      - unfold Jt in *. rewrite Htm2, Hc2. exact J.
+      - eapply Forall_impl; [|exact ST]. intros a. apply save_ok_states; assumption. }
+    destruct o as [n0|n0 i0|p0|t0 z0|n p|n z]; cbn [sname app] in R, N;
+      try (apply (Hgen (tv_pop s) (fun _ => True)); [apply tv_pop_good, G|simpl; rewrite ET; reflexivity|reflexivity|reflexivity|reflexivity| |exact N];
+           eapply RelX_same_mem_r; [exact R| | | |]; try reflexivity;
+           [unfold same_mem, drop_tv, tv_pop; simpl; repeat split; reflexivity|simpl; rewrite ET; reflexivity]).
+    + (* a saved string scalar *)
+      destruct Ho as (Hn & Hp & HJ). inversion_clear N as [|? ? Hnin Nrest].
+      destruct (restore_scalar_good s n (SStr p) G) as [G1 _]; [intros _; eauto|rewrite Hn; discriminate|].
+      apply (Hgen (tv_pop (set_scal s (upsert n (SStr p) (scal s)))) (fun _ => True));
+        [apply tv_pop_good, G1|simpl; rewrite ET; reflexivity|reflexivity|reflexivity|reflexivity| |exact Nrest].
+      set (D' := drop_tv k (tv_pop (set_scal s (upsert n (SStr p) (scal s))))).
+      assert (R1 : RelX c (fun m => In m (n :: flat_map sname (firstn k T))) st0 D').
+      { apply (RelX_scal_exempt _ st0 (drop_tv (S k) s) D' n R); try reflexivity; [left; reflexivity| |].
+        - unfold D', drop_tv, tv_pop. simpl. rewrite ET. reflexivity.
+        - intros m Hm. unfold D'. simpl. apply lookup_upsert_other, Hm. }
+      eapply RelX_weaken; [|apply (RelX_unexempt _ st0 D' n R1)].
+      * intros m [[->|Hm] Hne]; [contradiction|exact Hm].
+      * unfold D'. simpl. rewrite lookup_upsert_same. simpl in So. unfold orig in So.
+        destruct (lookup n (scal st0)) as [[q0|z0]|].
+        -- destruct So as (q & Eq & HR). inversion Eq; subst q. exists p. split; [reflexivity|].
+           eapply RP_states; [reflexivity|reflexivity| | |exact HR]; reflexivity.
+        -- discriminate.
+        -- right. exists (SStr p). auto.
+    + (* a saved numeric scalar *)
+      simpl in Ho. inversion_clear N as [|? ? Hnin Nrest].
+      destruct (restore_scalar_good s n (SNum z) G) as [G1 _]; [rewrite Ho; discriminate|intros _; eauto|].
+      apply (Hgen (tv_pop (set_scal s (upsert n (SNum z) (scal s)))) (fun _ => True));
+        [apply tv_pop_good, G1|simpl; rewrite ET; reflexivity|reflexivity|reflexivity|reflexivity| |exact Nrest].
+      set (D' := drop_tv k (tv_pop (set_scal s (upsert n (SNum z) (scal s))))).
+      assert (R1 : RelX c (fun m => In m (n :: flat_map sname (firstn k T))) st0 D').
+      { apply (RelX_scal_exempt _ st0 (drop_tv (S k) s) D' n R); try reflexivity; [left; reflexivity| |].
+        - unfold D', drop_tv, tv_pop. simpl. rewrite ET. reflexivity.
+        - intros m Hm. unfold D'. simpl. apply lookup_upsert_other, Hm. }
+      eapply RelX_weaken; [|apply (RelX_unexempt _ st0 D' n R1)].
+      * intros m [[->|Hm] Hne]; [contradiction|exact Hm].
+      * unfold D'. simpl. rewrite lookup_upsert_same. simpl in So. unfold orig in So.
+        destruct (lookup n (scal st0)) as [[q0|z0]|].
+        -- destruct So as (q & Eq & HR). discriminate.
+        -- inversion So; subst. reflexivity.
+        -- right. exists (SNum z). auto.
+Qed.
+
+(* ---------- active flags are only changed by evaluate itself ---------- *)
+Lemma check_free_active st size err : Good c st -> active (fst (check_free c st size err)) = active st.
+Proof.
+  intros G. pose proof (check_free_good c st size err G) as H. destruct (check_free c st size err) as [s r].
+  destruct H as (_ & _ & Hsh & _). simpl. eapply collect_active, Hsh.
+Qed.
+
+Lemma alloc_scalar_active st n : Good c st -> active (fst (alloc_scalar c st n)) = active st.
+Proof.
+  intros G. unfold alloc_scalar. destruct (mem_key n (scal st)); [reflexivity|].
+  pose proof (check_free_active st (scalar_mem n) 7 G) as H. destruct (check_free c st (scalar_mem n) 7) as [s r].
+  simpl in H. destruct r; simpl; exact H.
+Qed.
+
+Lemma set_scalar_active st n v : Good c st -> active (fst (set_scalar c st n v)) = active st.
+Proof.
+  intros G. unfold set_scalar. destruct v as [s|]; [|apply alloc_scalar_active, G].
+  set (st0 := if is_strobj (read_src st s) then fix_temporaries st else st).
+  assert (G0 : Good c st0) by (unfold st0; destruct (is_strobj _); [apply fix_temporaries_good, G|exact G]).
+  assert (A0 : active st0 = active st) by (unfold st0; destruct (is_strobj _); reflexivity).
+  destruct (check_type n (read_src st0 s)); simpl; auto.
+  pose proof (alloc_scalar_active st0 n G0) as H. destruct (alloc_scalar c st0 n) as [s1 r1]. simpl in H.
+  destruct r1; simpl; congruence.
+Qed.
+
+Lemma remove_z_head f l : ~ In f l -> remove_z f (f :: l) = l.
+Proof.
+  intros H. unfold remove_z. simpl. rewrite Z.eqb_refl. simpl.
+  induction l as [|x l IH]; simpl; [reflexivity|].
+  destruct (x =? f) eqn:E; [apply Z.eqb_eq in E; subst; exfalso; apply H; left; reflexivity|].
+  simpl. f_equal. apply IH. intros Hin. apply H. right; exact Hin.
+Qed.
+
+Lemma mem_z_false_notin f l : mem_z f l = false -> ~ In f l.
+Proof.
+  unfold mem_z. intros H Hin. assert (existsb (Z.eqb f) l = true); [|congruence].
+  apply existsb_exists. exists f. split; [exact Hin|apply Z.eqb_refl].
+Qed.
+
+Lemma mem_z_true_in f l : mem_z f l = true -> In f l.
+Proof. unfold mem_z. intros H. apply existsb_exists in H as (x & Hx & E). apply Z.eqb_eq in E. subst. exact Hx. Qed.
+
+(* ---------- UserFunction.evaluate keeps every variable: the frame theorem ---------- *)
+Section Call.
+Variable parse : expr -> state -> R obj.
+Hypothesis Hparse : forall e st, Good c st -> Jt st -> EV c (obj_ok c) st (parse e st).
+
+Definition base (s : state) (k : nat) : nat := (length (tvals s) - k)%nat.
+
+Lemma conv_arg_sname p s v o : conv_arg p s v = Ok o -> sname o = [].
+Proof.
+  unfold conv_arg. destruct (is_strname p).
+  - destruct (is_strobj v); [|discriminate]. intros H; inversion H; reflexivity.
+  - destruct v; try discriminate. destruct (conv_num (nty p) z); simpl; try discriminate. intros H; inversion H; reflexivity.
+Qed.
+
+Lemma eval_args_CI st0 : forall ps args s k, CI st0 s k ->
+  let '(s', r) := eval_args parse ps args s in
+  exists k', CI st0 s' k' /\ base s' k' = base s k /\ snames k' s' = snames k s /\ active s' = active s.
+Proof.
+  induction ps as [|p ps IH]; intros args s k HC; [simpl; exists k; auto|].
+  destruct args as [|a args]; [simpl; exists k; auto|]. cbn [eval_args].
+  pose proof (Hparse a s (ci_good _ _ _ HC) (ci_jt _ _ _ HC)) as Hp. unfold EV in Hp.
+  destruct (parse a s) as [s1 r1]. destruct Hp as (G1 & J1 & R1 & A1 & Q1).
+  assert (HC1 : CI st0 s1 k) by (eapply (CI_step st0 s s1 k (fun _ => False)); eauto; intros n []).
+  assert (Hlen : length (tvals s1) = length (tvals s)) by (symmetry; eapply Forall2_length, (r_tvals _ _ _ _ R1)).
+  assert (Hsn : snames k s1 = snames k s) by (apply snames_RO, (r_tvals _ _ _ _ R1)).
+  unfold bindR. destruct r1 as [v|e|h|]; try (exists k; unfold base; rewrite Hlen; auto).
+  destruct (conv_arg p s1 v) as [o|e|h|] eqn:Ec; try (exists k; unfold base; rewrite Hlen; auto).
+  assert (Hoo : obj_ok c s1 o) by (eapply conv_arg_ok; eauto).
+  pose proof (CI_push_arg st0 s1 k o HC1 Hoo (conv_arg_sname _ _ _ _ Ec)) as HC2.
+  specialize (IH args (tv_push s1 o) (S k) HC2). destruct (eval_args parse ps args (tv_push s1 o)) as [s' r].
+  destruct IH as (k' & C' & B' & N' & A'). exists k'. split; [exact C'|]. split; [|split].
+  - rewrite B'. unfold base. simpl. rewrite Hlen. lia.
+  - rewrite N'. unfold snames. simpl. rewrite (conv_arg_sname _ _ _ _ Ec). fold (snames k s1). exact Hsn.
+  - rewrite A'. simpl. exact A1.
+Qed.
+
+Lemma CI_lookup_orig st0 s k n v :
+  CI st0 s k -> ~ In n (snames k s) -> lookup n (scal s) = Some v -> orig st0 s n v.
+Proof.
+  intros HC Hn Hl. pose proof (ci_rel _ _ _ HC) as R. unfold orig.
+  destruct (lookup n (scal st0)) as [[p0|z0]|] eqn:E0.
+  - destruct (r_scal _ _ _ _ R n p0 Hn E0) as (p' & A & B). simpl in A. rewrite Hl in A. inversion A; subst.
+    exists p'. split; [reflexivity|]. eapply RP_states; [reflexivity|reflexivity| | |exact B]; reflexivity.
+  - pose proof (r_num _ _ _ _ R n z0 Hn E0) as A. simpl in A. congruence.
+  - destruct (r_new _ _ _ _ R n Hn E0) as [A|(v0 & A & B)]; simpl in A; [congruence|]. rewrite Hl in A. inversion A; subst. exact B.
+Qed.
+
+Lemma save_params_CI st0 : forall ps saved s k, CI st0 s k -> (forall n, In n saved <-> In n (snames k s)) ->
+  let '(s', r) := save_params c ps saved s in
+  exists k', CI st0 s' k' /\ base s' k' = base s k /\ active s' = active s /\
+             (forall n, In n (snames k s) -> In n (snames k' s')) /\
+             (r = Ok tt -> forall n, In n ps -> In n (snames k' s')).
+Proof.
+  induction ps as [|n ps IH]; intros saved s k HC Hsaved.
+  - simpl. exists k. spl; auto. intros _ n [].
+  - cbn [save_params].
+    pose proof (alloc_scalar_good c s n (ci_good _ _ _ HC)) as Ha.
+    pose proof (alloc_scalar_active s n (ci_good _ _ _ HC)) as Hact.
+    change (set_scalar c s n None) with (alloc_scalar c s n).
+    destruct (alloc_scalar c s n) as [s1 r1]. simpl in Hact. destruct Ha as (G1 & J1 & R1 & M1 & _).
+    specialize (J1 (ci_jt _ _ _ HC)).
+    assert (HC1 : CI st0 s1 k) by (eapply (CI_step st0 s s1 k (fun _ => False)); eauto; intros m []).
+    assert (Hlen : length (tvals s1) = length (tvals s)) by (symmetry; eapply Forall2_length, (r_tvals _ _ _ _ R1)).
+    assert (Hsn : snames k s1 = snames k s) by (apply snames_RO, (r_tvals _ _ _ _ R1)).
+    unfold bindR. destruct r1 as [[]|e|h|];
+      try (exists k; unfold base; rewrite Hlen, Hsn; spl; auto; intros; discriminate).
+    specialize (M1 eq_refl).
+    destruct (mem_z n saved) eqn:Em.
+    + (* already saved in this call *)
+      specialize (IH saved s1 k HC1). destruct (save_params c ps saved s1) as [s' r].
+      destruct IH as (k' & C' & B' & A' & I' & P'); [intros m; rewrite Hsn; apply Hsaved|].
+      exists k'. split; [exact C'|]. split; [rewrite B'; unfold base; rewrite Hlen; reflexivity|].
+      split; [congruence|]. split; [intros m Hm; apply I'; rewrite Hsn; exact Hm|].
+      intros Hr m [<-|Hm]; [|apply P'; assumption].
+      apply I'. rewrite Hsn. apply Hsaved. apply mem_z_true_in, Em.
+    + assert (Hnin : ~ In n (snames k s1)) by (rewrite Hsn; intros H; apply Hsaved in H; eapply mem_z_false_notin; eassumption).
+      unfold mem_key in M1. destruct (lookup n (scal s1)) as [v|] eqn:El; [|discriminate].
+      set (e := match v with SStr p => OSaveS n p | SNum z => OSaveN n z end).
+      assert (He : match Some v with Some (SStr p) => OSaveS n p | Some (SNum z) => OSaveN n z | None => OSaveN n 0 end = e)
+        by (unfold e; destruct v; reflexivity).
+      try rewrite He.
+      assert (Hok : obj_ok c s1 e).
+      { unfold e. destruct v as [p|z]; simpl.
+        - destruct (is_strname n) eqn:En.
+          + destruct (g_scal _ _ G1 n _ El En) as (q & Eq & A & B). inversion Eq; subst. auto.
+          + destruct (g_scal_num _ _ G1 n _ El En) as (z & Hz). discriminate.
+        - destruct (is_strname n) eqn:En; [|reflexivity].
+          destruct (g_scal _ _ G1 n _ El En) as (q & Eq & _). discriminate. }
+      assert (Hsv : save_ok st0 s1 e).
+      { pose proof (CI_lookup_orig st0 s1 k n v HC1 Hnin El) as Ho. unfold e. destruct v; exact Ho. }
+      assert (Hsne : sname e = [n]) by (unfold e; destruct v; reflexivity).
+      pose proof (CI_push_save st0 s1 k e n HC1 Hok Hsne Hnin Hsv) as HC2.
+      assert (Hsn2 : snames (S k) (tv_push s1 e) = n :: snames k s1) by (unfold snames; simpl; rewrite Hsne; reflexivity).
+      specialize (IH (n :: saved) (tv_push s1 e) (S k) HC2). destruct (save_params c ps (n :: saved) (tv_push s1 e)) as [s' r].
+      destruct IH as (k' & C' & B' & A' & I' & P').
+      { intros m. rewrite Hsn2, Hsn. simpl. rewrite Hsaved. tauto. }
+      exists k'. split; [exact C'|]. split; [rewrite B'; unfold base; simpl; rewrite Hlen; lia|].
+      split; [rewrite A'; simpl; exact Hact|]. split.
+      * intros m Hm. apply I'. rewrite Hsn2. right. rewrite Hsn. exact Hm.
+      * intros Hr m [<-|Hm]; [apply I'; rewrite Hsn2; left; reflexivity|apply P'; assumption].
+Qed.
+
+Lemma bind_params_CI st0 : forall ps j k0 m s k, CI st0 s k -> (forall n, In n ps -> In n (snames k s)) ->
+  let '(s', r) := bind_params c ps j k0 m s in
+  CI st0 s' k /\ base s' k = base s k /\ active s' = active s /\ snames k s' = snames k s.
+Proof.
+  induction ps as [|n ps IH]; intros j k0 m s k HC Hps; [simpl; auto|]. cbn [bind_params].
+  destruct (j <? k0)%nat; [|simpl; auto].
+  pose proof (set_scalar_good c s n (Some (VTmp (m + (k0 - 1 - j)))) (ci_good _ _ _ HC) (ci_jt _ _ _ HC) I) as Hs.
+  pose proof (set_scalar_active s n (Some (VTmp (m + (k0 - 1 - j)))) (ci_good _ _ _ HC)) as Hact.
+  destruct (set_scalar c s n (Some (VTmp (m + (k0 - 1 - j))))) as [s1 r1]. simpl in Hact.
+  destruct Hs as (G1 & J1 & R1 & _).
+  assert (HC1 : CI st0 s1 k).
+  { eapply (CI_step st0 s s1 k (fun x => x = n)); eauto. intros x ->. apply Hps. left; reflexivity. }
+  assert (Hlen : length (tvals s1) = length (tvals s)) by (symmetry; eapply Forall2_length, (r_tvals _ _ _ _ R1)).
+  assert (Hsn : snames k s1 = snames k s) by (apply snames_RO, (r_tvals _ _ _ _ R1)).
+  unfold bindR. destruct r1 as [[]|e|h|]; try (unfold base; rewrite Hlen; auto).
+  specialize (IH (S j) k0 m s1 k HC1). destruct (bind_params c ps (S j) k0 m s1) as [s' r].
+  destruct IH as (C' & B' & A' & N'); [intros x Hx; rewrite Hsn; apply Hps; right; exact Hx|].
+  split; [exact C'|]. split; [rewrite B'; unfold base; rewrite Hlen; reflexivity|]. split; congruence.
+Qed.
+
+Lemma CI_init st : Good c st -> Jt st -> CI st st 0.
+Proof.
+  intros G J. constructor; auto.
+  - simpl. lia.
+  - unfold snames. simpl. eapply RelX_same_mem_r; [apply RelX_refl|apply same_mem_drop_tv| | |]; reflexivity.
+  - unfold snames. simpl. constructor.
+  - simpl. constructor.
+Qed.
+
+Lemma Good_set_active st x : Good c st -> Good c (set_active st x).
+Proof.
+  intros G. apply (Good_containers c st _ G).
+  - unfold same_mem. simpl. repeat split; reflexivity.
+  - simpl. exact (g_stack _ _ G).
+  - simpl. exact (g_tvals _ _ G).
+Qed.
+
+Lemma CI_set_active st0 s k x : CI st0 s k -> CI st0 (set_active s x) k.
+Proof.
+  intros [G J L R N Sv]. constructor.
+  - apply Good_set_active, G.
+  - exact J.
+  - exact L.
+  - eapply RelX_same_mem_r; [exact R| | | |]; try reflexivity. unfold same_mem. simpl. repeat split; reflexivity.
+  - exact N.
+  - eapply Forall_impl; [|exact Sv]. intros a. apply save_ok_states; reflexivity.
+Qed.
+
+Lemma unwind_strs k : forall st, strs (unwind k st) = strs st /\ totmem (unwind k st) = totmem st /\ stksz (unwind k st) = stksz st.
+Proof.
+  induction k as [|k IH]; intros st; simpl; [auto|].
+  destruct (IH (tv_pop match tv_top st with
+                       | OSaveS v p => set_scal st (upsert v (SStr p) (scal st))
+                       | OSaveN v z => set_scal st (upsert v (SNum z) (scal st))
+                       | _ => st end)) as (a1 & a2 & a3).
+  rewrite a1, a2, a3. destruct (tv_top st); simpl; auto.
+Qed.
+
+Definition plain (o : obj) : Prop := match o with OStr _ | ONum _ _ => True | _ => False end.
+
+Lemma conv_arg_plain p s v o : conv_arg p s v = Ok o -> plain o.
+Proof.
+  unfold conv_arg. destruct (is_strname p).
+  - destruct (is_strobj v); [|discriminate]. intros H; inversion H; exact I.
+  - destruct v; try discriminate. destruct (conv_num (nty p) z); simpl; try discriminate. intros H; inversion H; exact I.
+Qed.
+
+Lemma obj_ok_plain st st' o : plain o -> strs st' = strs st -> obj_ok c st o -> obj_ok c st' o.
+Proof. destruct o; simpl; try contradiction; auto. intros _ H. apply ptr_ok_same, H. Qed.
+
+Theorem evaluate_EV f args st : Good c st -> Jt st -> EV c (obj_ok c) st (evaluate c parse f args st).
+Proof.
+  intros G J. unfold evaluate. destruct (lookup f (fns st)) as [[ps body]|]; [|apply EV_err; assumption].
+  set (inner := (doR (st1, _) <- eval_args parse ps args st;
+         if mem_z f (active st1) then errR st1 7
+         else
+           doR (st2, _) <- save_params c ps [] st1;
+           let k := Nat.min (length ps) (length args) in
+           let m := (length (tvals st2) - length (tvals st1))%nat in
+           doR (st3, _) <- bind_params c ps 0 k m st2;
+           finallyR
+             (doR (st5, v) <- parse body (set_active st3 (f :: active st3));
+              liftR st5 (conv_result f st5 v))
+             (fun s => set_active s (remove_z f (active s))))).
+  assert (Hinner : let '(s, r) := inner in
+            exists k, CI st s k /\ base s k = length (tvals st) /\ active s = active st /\
+                      (forall o, r = Ok o -> obj_ok c s o /\ plain o)).
+  { unfold inner.
+    pose proof (eval_args_CI st ps args st 0 (CI_init st G J)) as H1.
+    destruct (eval_args parse ps args st) as [st1 r1]. destruct H1 as (k1 & C1 & B1 & N1 & A1).
+    assert (B1' : base st1 k1 = length (tvals st)) by (rewrite B1; unfold base; lia).
+    unfold bindR at 1. destruct r1 as [[]|e|h|]; try (exists k1; spl; auto; intros; discriminate).
+    destruct (mem_z f (active st1)) eqn:Em; [unfold errR; exists k1; spl; auto; intros; discriminate|].
+    pose proof (save_params_CI st ps [] st1 k1 C1) as H2.
+    destruct (save_params c ps [] st1) as [st2 r2].
+    destruct H2 as (k2 & C2 & B2 & A2 & I2 & P2).
+    { intros n. rewrite N1. unfold snames. simpl. tauto. }
+    unfold bindR at 1. destruct r2 as [[]|e|h|];
+      try (exists k2; spl; auto; [congruence|congruence|intros; discriminate]).
+    specialize (P2 eq_refl). cbv zeta.
+    pose proof (bind_params_CI st ps 0 (Nat.min (length ps) (length args)) (length (tvals st2) - length (tvals st1)) st2 k2 C2 P2) as H3.
+    destruct (bind_params c ps 0 (Nat.min (length ps) (length args)) (length (tvals st2) - length (tvals st1)) st2) as [st3 r3].
+    destruct H3 as (C3 & B3 & A3 & N3).
+    unfold bindR at 1. destruct r3 as [[]|e|h|];
+      try (exists k2; spl; auto; [congruence|congruence|intros; discriminate]).
+    (* the body, with the recursion flag set *)
+    pose proof (CI_set_active st st3 k2 (f :: active st3) C3) as C4.
+    pose proof (Hparse body (set_active st3 (f :: active st3)) (ci_good _ _ _ C4) (ci_jt _ _ _ C4)) as H5. unfold EV in H5.
+    unfold finallyR, bindR.
+    destruct (parse body (set_active st3 (f :: active st3))) as [st5 r5]. destruct H5 as (G5 & J5 & R5 & A5 & Q5).
+    assert (C5 : CI st st5 k2) by (eapply (CI_step st _ st5 k2 (fun _ => False)); eauto; intros n []).
+    assert (Hlen5 : length (tvals st5) = length (tvals st3)).
+    { symmetry. apply (Forall2_length _ _ _ (r_tvals _ _ _ _ R5)). }
+    assert (Hact : remove_z f (active st5) = active st).
+    { rewrite A5. cbn [active set_active]. rewrite remove_z_head; [congruence|]. rewrite A3, A2. apply mem_z_false_notin, Em. }
+    assert (Hfin : forall (r : res obj), (forall o, r = Ok o -> obj_ok c st5 o /\ plain o) ->
+              exists k, CI st (set_active st5 (remove_z f (active st5))) k /\
+                        base (set_active st5 (remove_z f (active st5))) k = length (tvals st) /\
+                        active (set_active st5 (remove_z f (active st5))) = active st /\
+                        (forall o, r = Ok o -> obj_ok c (set_active st5 (remove_z f (active st5))) o /\ plain o)).
+    { intros r Hr. exists k2. split; [apply CI_set_active, C5|]. split.
+      - unfold base in *. simpl. rewrite Hlen5. congruence.
+      - split; [simpl; exact Hact|]. intros o Ho. destruct (Hr o Ho). split; [apply obj_ok_set_active; assumption|assumption]. }
+    destruct r5 as [v|e|h|]; try (apply Hfin; intros; discriminate).
+    unfold liftR. apply Hfin. intros o Ho. unfold conv_result in Ho.
+    split; [eapply conv_arg_ok; eauto|eapply conv_arg_plain; eauto]. }
+  unfold finallyR. fold inner. destruct inner as [s r]. destruct Hinner as (k & C & B & A & Q).
+  assert (Ek : (length (tvals s) - length (tvals st))%nat = k).
+  { unfold base in B. pose proof (ci_len _ _ _ C). lia. }
+  rewrite Ek. destruct (unwind_CI st k s C) as [Gf Rf].
+  destruct (unwind_misc k s) as (m1 & m2 & m3 & m4 & m5). destruct (unwind_strs k s) as (m6 & _).
+  unfold EV. split; [exact Gf|]. split; [unfold Jt; rewrite m1, m2; exact (ci_jt _ _ _ C)|].
+  split; [exact Rf|]. split; [congruence|].
+  intros o Ho. destruct (Q o Ho) as [Hok Hpl]. eapply obj_ok_plain; eauto.
+Qed.
+End Call.
+
+(* ---------- unfolding equations of the evaluator (copied from model/UserFn.v by tools/gen_userfn_eqs.py, proved by reflexivity) ---------- *)
+Lemma parse_S fuel e st : parse c (S fuel) e st =
+
+      
+      finallyR
+        (doR (st1, _) <- units c fuel e (push_frame st);
+         retR st1 (top_obj st1))
+        pop_frame.
+Proof. reflexivity. Qed.
+
+Lemma units_S fuel e st : units c (S fuel) e st =
+
+      match e with
+      | ECat a b =>
+          doR (st1, _) <- units c fuel a st;
+          doR (st2, _) <- units c fuel b st1;
+          
+          let r := top_obj st2 in
+          let st3 := pop_obj st2 in
+          let l := top_obj st3 in
+          let st4 := pop_obj st3 in
+          doR (st5, v) <- add_objs c st4 l r;
+          retR (push_obj st5 v) tt
+      | _ =>
+          doR (st1, v) <- unit_ c fuel e st;
+          retR (push_obj st1 v) tt
+      end.
+Proof. reflexivity. Qed.
+
+Lemma unit_S fuel e st : unit_ c (S fuel) e st =
+
+      match e with
+      | ELit (Some a) bs =>
+          if 255 <? zlen bs then errR st 15
+          else if var_start c <=? a then (st, Host host_Other)     
+          else retR st (OStr (zlen bs, a))
+      | ELit None bs => doR (st1, p) <- store c st bs; retR st1 (OStr p)
+      | ENum t z => retR st (ONum t z)
+      | EVar n =>
+          if is_strname n then retR st (if mem_key n (scal st) then OVar n else OStr (0, 0))
+          else retR st (ONum (nty n) (match lookup n (scal st) with Some (SNum z) => z | _ => 0 end))
+      | EArr n i => doR (st1, _) <- check_dim c st n i; retR st1 (OArr n i)
+      | ECat _ _ => parse c fuel e st             
+      | EPar e1 => parse c fuel e1 st
+      | ELeft e1 n => left_right c fuel e1 n false st
+      | ERight e1 n => left_right c fuel e1 n true st
+      | EMid e1 s n =>
+          doR (st1, sv) <- parse c fuel e1 st;
+          finallyR
+            (doR (st3, startv) <- parse c fuel s (tv_push st1 sv);
+             match to_int16 startv with
+             | Ok start =>
+                 if negb (is_strobj (tv_top st3)) then errR st3 13
+                 else
+                   doR (st4, numo) <- match n with
+                                      | Some ne => doR (st4, nv) <- parse c fuel ne st3; liftR st4 (bind (to_int16 nv) (fun z => Ok (Some z)))
+                                      | None => retR st3 None
+                                      end;
+                   let s' := tv_top st4 in
+                   let len := fst (optr st4 s') in
+                   let num := match numo with Some z => z | None => len end in
+                   if (start <? 1) || (255 <? start) then errR st4 5
+                   else if (num <? 0) || (255 <? num) then errR st4 5
+                   else if (num =? 0) || (len <? start) then retR st4 (OStr (0, 0))
+                   else
+                     match deref c st4 (optr st4 s') with
+                     | Ok bs => doR (st5, p) <- store c st4 (takeZ num (dropZ (start - 1) bs)); retR st5 (OStr p)
+                     | x => liftR st4 (bind x (fun _ => Err 13))
+                     end
+             | x => liftR st3 (bind x (fun _ => Err 13))
+             end)
+            tv_pop
+      | EString n ce =>
+          doR (st1, nv) <- parse c fuel n st;
+          match to_int16 nv with
+          | Ok num =>
+              if (num <? 0) || (255 <? num) then errR st1 5
+              else
+                doR (st2, cv) <- parse c fuel ce st1;
+                match cv with
+                | ONum t z =>
+                    if (t =? 2) && ((z <? 0) || (255 <? z)) then errR st2 5
+                    else match conv_num 2 z with
+                         | Ok a => if (a <? 0) || (255 <? a) then errR st2 5
+                                   else doR (st3, p) <- store c st2 (repeat a (Z.to_nat num)); retR st3 (OStr p)
+                         | x => liftR st2 (bind x (fun _ => Err 13))
+                         end
+                | _ =>
+                    match deref c st2 (optr st2 cv) with
+                    | Ok bs => doR (st3, p) <- store c st2 (repeat_list (firstn 1 bs) (Z.to_nat num)); retR st3 (OStr p)
+                    | x => liftR st2 (bind x (fun _ => Err 13))
+                    end
+                end
+          | x => liftR st1 (bind x (fun _ => Err 13))
+          end
+      | ESpace n =>
+          doR (st1, nv) <- parse c fuel n st;
+          match to_int16 nv with
+          | Ok num => if (num <? 0) || (255 <? num) then errR st1 5
+                      else doR (st2, p) <- store c st1 (repeat 32 (Z.to_nat num)); retR st2 (OStr p)
+          | x => liftR st1 (bind x (fun _ => Err 13))
+          end
+      | EStr e1 =>
+          doR (st1, v) <- parse c fuel e1 st;
+          match v with
+          | ONum _ z => doR (st2, p) <- store c st1 (str_of_num z); retR st2 (OStr p)
+          | _ => errR st1 13
+          end
+      | EChr e1 =>
+          doR (st1, v) <- parse c fuel e1 st;
+          match to_int16 v with
+          | Ok z => if (z <? 0) || (255 <? z) then errR st1 5
+                    else doR (st2, p) <- store c st1 [z]; retR st2 (OStr p)
+          | x => liftR st1 (bind x (fun _ => Err 13))
+          end
+      | EFre e1 =>
+          doR (st1, v) <- parse c fuel e1 st;
+          if is_strobj v then
+            match collect c st1 with
+            | Ok st2 => retR st2 (ONum 4 (free c st2))
+            | x => liftR st1 (bind x (fun _ => Err 13))
+            end
+          else retR st1 (ONum 4 (free c st1))
+      | ELen e1 =>
+          doR (st1, v) <- parse c fuel e1 st;
+          if is_strobj v then retR st1 (ONum 2 (fst (optr st1 v))) else errR st1 13
+      | EInstr a b =>
+          doR (st1, big) <- parse c fuel a st;
+          if negb (is_strobj big) then errR st1 (match big with ONum _ _ => 2 | _ => 13 end)
+          else
+            finallyR
+              (doR (st3, small) <- parse c fuel b (tv_push st1 big);
+               if negb (is_strobj small) then errR st3 13
+               else
+                 match deref c st3 (optr st3 (tv_top st3)), deref c st3 (optr st3 small) with
+                 | Ok bb, Ok sb =>
+                     retR st3 (ONum 2 (match bb with [] => 0 | _ => find_from 0 bb sb + 1 end))
+                 | Ok _, x => liftR st3 (bind x (fun _ => Err 13))
+                 | x, _ => liftR st3 (bind x (fun _ => Err 13))
+                 end)
+              tv_pop
+      | EFn f args => evaluate c (parse c fuel) f args st
+      end.
+Proof. reflexivity. Qed.
+
+Lemma left_right_S fuel e1 n rj st : left_right c (S fuel) e1 n rj st =
+
+      doR (st1, sv) <- parse c fuel e1 st;
+      finallyR
+        (doR (st3, numv) <- parse c fuel n (tv_push st1 sv);
+         let s' := tv_top st3 in
+         if negb (is_strobj s') then errR st3 13
+         else
+           match to_int16 numv with
+           | Ok stop =>
+               if stop =? 0 then retR st3 (OStr (0, 0))
+               else if (stop <? 0) || (255 <? stop) then errR st3 5
+               else
+                 match deref c st3 (optr st3 s') with
+                 | Ok bs => doR (st4, p) <- store c st3 (if rj then lastZ stop bs else takeZ stop bs);
+                            retR st4 (OStr p)
+                 | x => liftR st3 (bind x (fun _ => Err 13))
+                 end
+           | x => liftR st3 (bind x (fun _ => Err 13))
+           end)
+        tv_pop.
+Proof. reflexivity. Qed.
+
+(* ---------- the evaluator, by induction on the fuel ---------- *)
+Definition Pparse (fuel : nat) : Prop := forall e st, Good c st -> Jt st -> EV c (obj_ok c) st (parse c fuel e st).
+Definition Punit (fuel : nat) : Prop := forall e st, Good c st -> Jt st -> EV c (obj_ok c) st (unit_ c fuel e st).
+Definition Plr (fuel : nat) : Prop := forall e n b st, Good c st -> Jt st -> EV c (obj_ok c) st (left_right c fuel e n b st).
+Definition Punits (fuel : nat) : Prop := forall e st, Good c st -> Jt st -> stack st <> [] ->
+  let '(st', r) := units c fuel e st in
+  Good c st' /\ Jt st' /\ active st' = active st /\ stack st' <> [] /\
+  match r with
+  | Ok _ => Rel c st (pop_obj st') /\ exists o fr rs, stack st' = (o :: fr) :: rs
+  | _ => Rel c (pop_frame st) (pop_frame st')
+  end.
+
+Lemma EV_fuel {A} (Q : state -> A -> Prop) st : Good c st -> Jt st -> EV c Q st (st, OutOfFuel).
+Proof. intros. unfold EV. spl; auto using Rel_refl. intros; discriminate. Qed.
+
+Lemma to_int16_cases o : (exists z, to_int16 o = Ok z) \/ (exists e, to_int16 o = Err e).
+Proof.
+  unfold to_int16, conv_num. destruct o; eauto. destruct ((2 =? 2) && ((z <? -32768) || (32767 <? z))); eauto.
+Qed.
+
+Lemma pop_push_obj_rel X st0 s v : stack s <> [] -> RelX c X st0 s -> RelX c X st0 (pop_obj (push_obj s v)).
+Proof.
+  intros Hs H. destruct (stack s) as [|fr rs] eqn:E; [contradiction|].
+  eapply RelX_same_mem_r; [exact H| | | |].
+  - unfold pop_obj, push_obj. rewrite E. simpl. unfold same_mem. simpl. repeat split; reflexivity.
+  - unfold pop_obj, push_obj. rewrite E. simpl. reflexivity.
+  - unfold pop_obj, push_obj. rewrite E. reflexivity.
+  - unfold pop_obj, push_obj. rewrite E. reflexivity.
+Qed.
+
+Lemma pf_po_fields s :
+  same_mem (pop_frame (pop_obj s)) (pop_frame s) /\ stack (pop_frame s) = stack (pop_frame (pop_obj s)) /\
+  tvals (pop_frame s) = tvals (pop_frame (pop_obj s)) /\ fns (pop_frame s) = fns (pop_frame (pop_obj s)).
+Proof.
+  unfold pop_frame, pop_obj, same_mem. destruct (stack s) as [|[|o fr] rs] eqn:E; simpl; rewrite ?E; simpl; repeat split; reflexivity.
+Qed.
+
+Lemma pop_frame_pop_obj_rel X st0 s : RelX c X st0 (pop_frame (pop_obj s)) -> RelX c X st0 (pop_frame s).
+Proof.
+  intros H. destruct (pf_po_fields s) as (A & B & C & D). eapply RelX_same_mem_r; [exact H|exact A|exact B|exact C|exact D].
+Qed.
+
+Lemma pop_frame_pop_obj_rel_l X s s' : RelX c X (pop_frame (pop_obj s)) s' -> RelX c X (pop_frame s) s'.
+Proof.
+  intros H. destruct (pf_po_fields s) as (A & B & C & D).
+  apply (RelX_reshape c X (pop_frame (pop_obj s)) s' (pop_frame s) s' H A (same_mem_refl _) D eq_refl).
+  - rewrite B. exact (r_stack _ _ _ _ H).
+  - rewrite C. exact (r_tvals _ _ _ _ H).
+Qed.
+
+Lemma push_obj_stack s v : stack s <> [] -> exists fr rs, stack (push_obj s v) = (v :: fr) :: rs.
+Proof. intros H. unfold push_obj. destruct (stack s) as [|fr rs]; [contradiction|]. simpl. eauto. Qed.
+
+Lemma parse_of_units fuel : Punits fuel -> Pparse (S fuel).
+Proof.
+  intros HU e st G J. rewrite parse_S.
+  assert (G0 : Good c (push_frame st)) by (apply push_frame_good, G).
+  assert (J0 : Jt (push_frame st)) by exact J.
+  assert (S0 : stack (push_frame st) <> []) by (simpl; discriminate).
+  specialize (HU e (push_frame st) G0 J0 S0). destruct (units c fuel e (push_frame st)) as [st1 r].
+  destruct HU as (G1 & J1 & A1 & S1 & Hr). unfold finallyR, bindR, EV.
+  destruct r as [[]|er|h|]; unfold retR; cbv beta iota.
+  - destruct Hr as [R1 (o & fr & rs & Es)]. unfold retR.
+    split; [apply pop_frame_good, G1|]. split; [exact J1|]. split.
+    + apply pop_frame_pop_obj_rel. apply Rel_undo_push_frame. exact R1.
+    + split; [exact A1|]. intros a Ea. inversion Ea; subst. apply obj_ok_pop_frame, top_obj_ok, G1.
+  - split; [apply pop_frame_good, G1|]. split; [exact J1|]. split; [|split; [exact A1|intros; discriminate]].
+    apply (RelX_reshape c _ (pop_frame (push_frame st)) (pop_frame st1) st (pop_frame st1) Hr); auto using same_mem_refl.
+    + unfold same_mem. simpl. repeat split; reflexivity.
+    + exact (r_stack _ _ _ _ Hr).
+    + exact (r_tvals _ _ _ _ Hr).
+  - split; [apply pop_frame_good, G1|]. split; [exact J1|]. split; [|split; [exact A1|intros; discriminate]].
+    apply (RelX_reshape c _ (pop_frame (push_frame st)) (pop_frame st1) st (pop_frame st1) Hr); auto using same_mem_refl.
+    + unfold same_mem. simpl. repeat split; reflexivity.
+    + exact (r_stack _ _ _ _ Hr).
+    + exact (r_tvals _ _ _ _ Hr).
+  - split; [apply pop_frame_good, G1|]. split; [exact J1|]. split; [|split; [exact A1|intros; discriminate]].
+    apply (RelX_reshape c _ (pop_frame (push_frame st)) (pop_frame st1) st (pop_frame st1) Hr); auto using same_mem_refl.
+    + unfold same_mem. simpl. repeat split; reflexivity.
+    + exact (r_stack _ _ _ _ Hr).
+    + exact (r_tvals _ _ _ _ Hr).
+Qed.
+
+Lemma push_obj_fields s v : Jt (push_obj s v) = Jt s /\ active (push_obj s v) = active s.
+Proof. unfold push_obj, Jt. destruct (stack s); simpl; auto. Qed.
+
+Lemma pop_obj_same_mem s : same_mem s (pop_obj s).
+Proof. unfold pop_obj. destruct (stack s) as [|[|o fr] rs]; try apply same_mem_refl. apply same_mem_set_stack. Qed.
+
+Lemma pop_obj_fields s : Jt (pop_obj s) = Jt s /\ active (pop_obj s) = active s.
+Proof. unfold pop_obj, Jt. destruct (stack s) as [|[|o fr] rs]; simpl; auto. Qed.
+
+Lemma same_mem_trans a b d : same_mem a b -> same_mem b d -> same_mem a d.
+Proof.
+  unfold same_mem. intros (a1 & a2 & a3 & a4 & a5 & a6 & a7 & a8 & a9) (b1 & b2 & b3 & b4 & b5 & b6 & b7 & b8 & b9).
+  repeat split; congruence.
+Qed.
+
+Lemma units_default fuel e st :
+  Punit fuel -> Good c st -> Jt st -> stack st <> [] ->
+  let '(st', r) := (doR (st1, v) <- unit_ c fuel e st; retR (push_obj st1 v) tt) in
+  Good c st' /\ Jt st' /\ active st' = active st /\ stack st' <> [] /\
+  match r with
+  | Ok _ => Rel c st (pop_obj st') /\ exists o fr rs, stack st' = (o :: fr) :: rs
+  | _ => Rel c (pop_frame st) (pop_frame st')
+  end.
+Proof.
+  intros HU G J Hs. specialize (HU e st G J). unfold EV in HU. destruct (unit_ c fuel e st) as [st1 r].
+  destruct HU as (G1 & J1 & R1 & A1 & Q1).
+  assert (Hs1 : stack st1 <> []).
+  { pose proof (r_stack _ _ _ _ R1) as H. destruct H; [contradiction|discriminate]. }
+  unfold bindR. destruct r as [v|er|h|]; try (spl; auto; apply Rel_pop_frame, R1).
+  unfold retR. destruct (push_obj_fields st1 v) as [Ej Ea].
+  split; [apply push_obj_good; [exact G1|apply Q1; reflexivity]|]. split; [rewrite Ej; exact J1|]. split; [rewrite Ea; exact A1|].
+  destruct (push_obj_stack st1 v Hs1) as (fr & rs & E). split; [rewrite E; discriminate|].
+  split; [apply pop_push_obj_rel; assumption|eauto].
+Qed.
+
+Lemma units_step fuel : Punits fuel -> Punit fuel -> Punits (S fuel).
+Proof.
+  intros HUs HU e st G J Hs. rewrite units_S.
+  destruct e; try (apply units_default; assumption).
+  (* a + b *)
+  pose proof (HUs e1 st G J Hs) as H1. destruct (units c fuel e1 st) as [st1 r1].
+  destruct H1 as (G1 & J1 & A1 & S1 & Hr1). unfold bindR at 1.
+  destruct r1 as [[]|er|h|]; try (spl; auto).
+  destruct Hr1 as [R1 (o1 & fr1 & rs1 & E1)].
+  pose proof (HUs e2 st1 G1 J1 S1) as H2. destruct (units c fuel e2 st1) as [st2 r2].
+  destruct H2 as (G2 & J2 & A2 & S2 & Hr2). unfold bindR at 1.
+  assert (Herr : Rel c (pop_frame st1) (pop_frame st2) -> Rel c (pop_frame st) (pop_frame st2)).
+  { intros H. eapply Rel_trans; [|exact H]. apply pop_frame_pop_obj_rel. apply Rel_pop_frame. exact R1. }
+  destruct r2 as [[]|er|h|]; try (spl; auto; congruence).
+  destruct Hr2 as [R2 (o2 & fr2 & rs2 & E2)].
+  (* the two operands *)
+  set (st3 := pop_obj st2). set (st4 := pop_obj st3).
+  assert (G3 : Good c st3) by (apply pop_obj_good, G2).
+  assert (G4 : Good c st4) by (apply pop_obj_good, G3).
+  assert (Hr : obj_ok c st4 (top_obj st2)).
+  { eapply obj_ok_same; [|apply top_obj_ok, G2]. eapply same_mem_trans; apply pop_obj_same_mem. }
+  assert (Hl : obj_ok c st4 (top_obj st3)).
+  { eapply obj_ok_same; [|apply top_obj_ok, G3]. apply pop_obj_same_mem. }
+  assert (J4 : Jt st4).
+  { unfold st4, st3. rewrite (proj1 (pop_obj_fields _)), (proj1 (pop_obj_fields _)). exact J2. }
+  assert (A4 : active st4 = active st).
+  { unfold st4, st3. rewrite (proj2 (pop_obj_fields _)), (proj2 (pop_obj_fields _)). congruence. }
+  assert (R4 : Rel c st st4).
+  { eapply Rel_trans; [exact R1|]. apply Rel_pop_obj. exact R2. }
+  assert (S4 : stack st4 <> []).
+  { pose proof (r_stack _ _ _ _ R4) as H. destruct H; [contradiction|discriminate]. }
+  pose proof (add_objs_EV st4 (top_obj st3) (top_obj st2) G4 J4 Hl Hr) as Ha. unfold EV in Ha.
+  fold st3. fold st4. destruct (add_objs c st4 (top_obj st3) (top_obj st2)) as [st5 r5].
+  destruct Ha as (G5 & J5 & R5 & A5 & Q5).
+  assert (S5 : stack st5 <> []).
+  { pose proof (r_stack _ _ _ _ R5) as H. destruct H; [contradiction|discriminate]. }
+  unfold bindR. destruct r5 as [v|er|h|];
+    try (spl; auto; [congruence|apply Rel_pop_frame; eapply Rel_trans; eassumption]).
+  unfold retR. destruct (push_obj_fields st5 v) as [Ej Ea].
+  split; [apply push_obj_good; [exact G5|apply Q5; reflexivity]|]. split; [rewrite Ej; exact J5|]. split; [rewrite Ea; congruence|].
+  destruct (push_obj_stack st5 v S5) as (fr & rs & E). split; [rewrite E; discriminate|].
+  split; [apply pop_push_obj_rel; [assumption|eapply Rel_trans; eassumption]|eauto].
+Qed.
+
+Ltac ev_done :=
+  first [ apply EV_err; assumption
+        | apply EV_fail; assumption
+        | apply EV_store_obj; assumption
+        | apply EV_fuel; assumption
+        | apply EV_ret; [assumption|assumption|simpl; auto using zero_ptr_ok] ].
+
+Lemma lr_step fuel : Pparse fuel -> Plr (S fuel).
+Proof.
+  intros Hp e n b st G J. rewrite left_right_S.
+  eapply EV_bind; [apply Hp; assumption|]. intros st1 sv G1 J1 Hsv.
+  apply (EV_finally_tv (obj_ok c) st1 sv); [intros; apply obj_ok_tv_pop; assumption|].
+  assert (G2 : Good c (tv_push st1 sv)) by (apply tv_push_good; assumption).
+  eapply EV_bind; [apply Hp; [exact G2|exact J1]|]. intros st3 numv G3 J3 _. cbv zeta.
+  destruct (negb (is_strobj (tv_top st3))); [ev_done|].
+  destruct (to_int16 numv) as [stop|er|h|]; try ev_done.
+  destruct (stop =? 0); [ev_done|]. destruct ((stop <? 0) || (255 <? stop)); [ev_done|].
+  destruct (deref c st3 (optr st3 (tv_top st3))) as [bs|er|h|]; try ev_done.
+Qed.
+
+Lemma EV_collect st : Good c st -> Jt st ->
+  EV c (obj_ok c) st (match collect c st with
+                      | Ok st2 => retR st2 (ONum 4 (free c st2))
+                      | x => liftR st (bind x (fun _ => Err 13))
+                      end).
+Proof.
+  intros G J. destruct (collect_good c st G) as (st' & Hc & G' & J' & R' & Hsh & _). rewrite Hc.
+  unfold retR, EV. spl; auto. eapply collect_active, Hsh. intros a E. inversion E. exact I.
+Qed.
+
+Lemma EV_check_dim st n i : Good c st -> Jt st ->
+  EV c (fun s (_ : unit) => obj_ok c s (OArr n i)) st (check_dim c st n i).
+Proof.
+  intros G J. pose proof (check_dim_good c st n i G) as H. destruct (check_dim c st n i) as [s r] eqn:E.
+  destruct H as (G' & J' & R' & Hok & _). unfold EV. spl; auto.
+  - (* active: check_dim only allocates *)
+    unfold check_dim in E. destruct (negb (is_strname n)); [inversion E; reflexivity|].
+    destruct (mem_key n (arrs st)) eqn:Em.
+    + unfold bindR, retR in E. destruct (lookup n (arrs st)) as [[d els]|]; [destruct (i <? 0); [|destruct (d <? i)]|]; inversion E; reflexivity.
+    + unfold allocate in E. rewrite Em in E. destruct (negb (is_strname n)); [unfold bindR, errR in E; inversion E; reflexivity|].
+      destruct (10 <? 0); [unfold bindR, errR in E; inversion E; reflexivity|].
+      pose proof (check_free_active st (array_mem 10) 7 G) as Ha.
+      destruct (check_free c st (array_mem 10) 7) as [s1 r1]. simpl in Ha.
+      unfold bindR, retR in E. destruct r1 as [[]|?|?|]; try (inversion E; subst; exact Ha).
+      simpl in E. rewrite lookup_upsert_same in E. destruct (i <? 0); [|destruct (10 <? i)]; inversion E; subst; simpl; exact Ha.
+  - intros [] Hr. apply Hok. exact Hr.
+Qed.
+
+Lemma unit_step fuel : Pparse fuel -> Plr fuel -> Punit (S fuel).
+Proof.
+  intros Hp Hlr e st G J. rewrite unit_S. destruct e.
+  - (* literal *)
+    destruct addr as [a|].
+    + destruct (255 <? zlen bs); [ev_done|]. destruct (var_start c <=? a) eqn:Ea.
+      * unfold EV. spl; auto using Rel_refl. intros; discriminate.
+      * apply EV_ret; auto. simpl. intros Hv. simpl in Hv. apply Z.leb_gt in Ea. lia.
+    + ev_done.
+  - ev_done.
+  - destruct (is_strname n) eqn:En.
+    + apply EV_ret; auto. unfold mem_key. destruct (lookup n (scal st)) as [v|] eqn:El; [|apply str_ok_zero].
+      simpl. split; [exact En|]. destruct (g_scal _ _ G n v El En) as (p & -> & _). eauto.
+    + ev_done.
+  - eapply EV_bind; [apply EV_check_dim; assumption|]. intros st1 [] G1 J1 Hok. apply EV_ret; assumption.
+  - apply Hp; assumption.
+  - apply Hp; assumption.
+  - apply Hlr; assumption.
+  - apply Hlr; assumption.
+  - (* MID$ *)
+    eapply EV_bind; [apply Hp; assumption|]. intros st1 sv G1 J1 Hsv.
+    apply (EV_finally_tv (obj_ok c) st1 sv); [intros; apply obj_ok_tv_pop; assumption|].
+    assert (G2 : Good c (tv_push st1 sv)) by (apply tv_push_good; assumption).
+    eapply EV_bind; [apply Hp; [exact G2|exact J1]|]. intros st3 startv G3 J3 _.
+    destruct (to_int16 startv) as [start|er|h|]; try ev_done.
+    destruct (negb (is_strobj (tv_top st3))); [ev_done|].
+    eapply (EV_bind c (fun _ (_ : option Z) => True)).
+    { destruct n as [ne|]; [|apply EV_ret; auto].
+      eapply EV_bind; [apply Hp; assumption|]. intros st4 nv G4 J4 _. apply EV_lift; auto. }
+    intros st4 numo G4 J4 _. cbv zeta.
+    destruct ((start <? 1) || (255 <? start)); [ev_done|].
+    destruct ((_ <? 0) || (255 <? _)); [ev_done|].
+    destruct ((_ =? 0) || (_ <? start)); [ev_done|].
+    destruct (deref c st4 (optr st4 (tv_top st4))) as [bs|er|h|]; try ev_done.
+  - (* STRING$ *)
+    eapply EV_bind; [apply Hp; assumption|]. intros st1 nv G1 J1 _.
+    destruct (to_int16 nv) as [num|er|h|]; try ev_done.
+    destruct ((num <? 0) || (255 <? num)); [ev_done|].
+    eapply EV_bind; [apply Hp; assumption|]. intros st2 cv G2 J2 Hcv.
+    destruct cv; try (destruct (deref c st2 _) as [bs|er|h|]; ev_done).
+    destruct ((t =? 2) && ((z <? 0) || (255 <? z))); [ev_done|].
+    destruct (conv_num 2 z) as [a|er|h|]; try ev_done.
+    destruct ((a <? 0) || (255 <? a)); ev_done.
+  - (* SPACE$ *)
+    eapply EV_bind; [apply Hp; assumption|]. intros st1 nv G1 J1 _.
+    destruct (to_int16 nv) as [num|er|h|]; try ev_done.
+    destruct ((num <? 0) || (255 <? num)); ev_done.
+  - (* STR$ *)
+    eapply EV_bind; [apply Hp; assumption|]. intros st1 v G1 J1 _. destruct v; ev_done.
+  - (* CHR$ *)
+    eapply EV_bind; [apply Hp; assumption|]. intros st1 v G1 J1 _.
+    destruct (to_int16 v) as [z|er|h|]; try ev_done.
+    destruct ((z <? 0) || (255 <? z)); ev_done.
+  - (* FRE *)
+    eapply EV_bind; [apply Hp; assumption|]. intros st1 v G1 J1 _.
+    destruct (is_strobj v); [apply EV_collect; assumption|ev_done].
+  - (* LEN *)
+    eapply EV_bind; [apply Hp; assumption|]. intros st1 v G1 J1 _. destruct (is_strobj v); ev_done.
+  - (* INSTR *)
+    eapply EV_bind; [apply Hp; assumption|]. intros st1 big G1 J1 Hbig.
+    destruct (negb (is_strobj big)); [ev_done|].
+    apply (EV_finally_tv (obj_ok c) st1 big); [intros; apply obj_ok_tv_pop; assumption|].
+    assert (G2 : Good c (tv_push st1 big)) by (apply tv_push_good; assumption).
+    eapply EV_bind; [apply Hp; [exact G2|exact J1]|]. intros st3 small G3 J3 _.
+    destruct (negb (is_strobj small)); [ev_done|].
+    destruct (deref c st3 (optr st3 (tv_top st3))) as [bb|er|h|]; try ev_done.
+    destruct (deref c st3 (optr st3 small)) as [sb|er|h|]; try ev_done.
+  - (* FN *)
+    apply evaluate_EV; auto.
+Qed.
+
+Theorem evaluator_all : forall fuel, Pparse fuel /\ Punits fuel /\ Punit fuel /\ Plr fuel.
+Proof.
+  induction fuel as [|fuel (IHp & IHus & IHu & IHl)].
+  - split; [|split; [|split]].
+    + intros e st G J. simpl. apply EV_fuel; assumption.
+    + intros e st G J Hs. simpl. spl; auto using Rel_refl.
+    + intros e st G J. simpl. apply EV_fuel; assumption.
+    + intros e n b st G J. simpl. apply EV_fuel; assumption.
+  - split; [apply parse_of_units, IHus|]. split; [apply units_step; assumption|].
+    split; [apply unit_step; assumption|apply lr_step; assumption].
+Qed.
+
+Corollary parse_EV fuel e st : Good c st -> Jt st -> EV c (obj_ok c) st (parse c fuel e st).
+Proof. apply (evaluator_all fuel). Qed.
 End Evaluator.
